@@ -395,7 +395,8 @@ class CookieJar(AbstractCookieJar):
                     cookie["max-age"] = ""
 
             elif expires := cookie["expires"]:
-                if expire_time := self._parse_date(expires):
+                # 0 is a valid date: "Thu, 01 Jan 1970 00:00:00 GMT" deletes a cookie
+                if (expire_time := self._parse_date(expires)) is not None:
                     self._expire_cookie(expire_time, domain, path, name)
                 else:
                     cookie["expires"] = ""
